@@ -9,4 +9,9 @@ def run():
     common.log("setup: building Coq development")
     out = common.build_coq()
     common.log(out[-2000:])
+    common.log("setup: extracting the Coq models and building the OCaml driver")
+    p = common.sh(["sh", os.path.join(common.VERIF, "ocaml", "build.sh")], timeout=1200, check=False)
+    if p.returncode != 0:
+        common.log(p.stdout[-3000:])
+        return 1
     return 0
